@@ -176,9 +176,12 @@ class C22(Prop):
         "shutil.copytree/copy, os.symlink, extract_tar_stream's member-by-member loop, and the decision tables (_copy, "
         "copy_same_connector, get_local_to_remote_destination, get_remote_to_remote_write_command, _local_copy, transfer_data's "
         "registered path). Proved for every source tree with unique names of any size, every route (local/remote x local/remote, "
-        "same location, other location), destination absent or an existing directory, writable or read-only, in every cell of "
+        "same location, other location), destination absent or an existing directory WITHOUT an entry named like the source "
+        "(dst_ok), writable or read-only, in every cell of "
         "the routing tables but two: the entry at the registered path is a link to the source (read-only only) or a copy equal to "
-        "the dereferenced source, and other entries of an existing directory are kept; the extract_tar_stream loop and "
+        "the dereferenced source -- which of the three is stated route by route (copy_exact) -- and other entries of an existing "
+        "directory are kept; the archive/extraction theorems are stated on the no-kind-conflict domain (no_conflict; dst_ok "
+        "implies it; outside it the total model functions are shown NOT to describe the tools); the extract_tar_stream loop and "
         "--strip-components 1 are proved equal to plain extraction at the registered place; dereferencing keeps trees well "
         "formed. The two excluded cells are proved to be the only ones excluded and are refuted with witnesses (a renamed "
         "executable file remote->remote loses its exec bit through tee; a writable local copy of a directory into an existing "
@@ -192,7 +195,12 @@ class C22(Prop):
         "trees and comparing destination trees, registered paths, their data types and availability with the model's, and by a "
         "byte-for-byte oracle.")
     LEVEL_NOTE = (
-        "Partial: tool semantics (GNU tar, cp, ln, tee, mkdir, test, Python tarfile/shutil) are modelled from their manuals and "
+        "Partial: OUTSIDE the transfer theorem (dst_ok) and only run by the correspondence/oracle: a destination that is an "
+        "existing regular file, and a destination directory that already holds an entry named like the source -- i.e. every "
+        "re-transfer over an earlier copy (recovery retries) and every kind conflict; there the oracle finds real deviations "
+        "(stale copies kept by EEXIST-swallowing symlink / ln over a directory, cp without -p keeping old modes, kind conflicts "
+        "and failing tars returning normally, a hang when a large remote->local copy fails), all listed in known/C22.txt; the "
+        "model is compared there except for kind conflicts and cp over existing files/links. Tool semantics (GNU tar, cp, ln, tee, mkdir, test, Python tarfile/shutil) are modelled from their manuals and "
         "validated only by the runs; paths are component lists (string path arithmetic of posixpath is exercised, not proved); "
         "the registry half ('registered as an available copy') is, in Coq, only the computed path and data type -- the registry "
         "itself is C21's model (DataReg), not re-imported here; what the real data manager lists for the destination after the "
@@ -207,7 +215,9 @@ class C22(Prop):
     RULE = ("transfer: random source (file or tree of 0..30 entries: empty files/dirs, binary contents up to 200 KiB quick / 1 MiB "
             "thorough, names with spaces, quotes, unicode, leading dashes, newlines, >100 chars, inner relative symlinks to files and "
             "link-free directories, hard links) x route {L->L, L->R, R->L, R->R same location, R->R other location, R->R other "
-            "deployment} x destination {absent, existing directory (empty or with another entry)} x {same basename, renamed} x "
+            "deployment} x destination {absent, existing directory (empty or with another entry), existing regular file, directory "
+            "holding an entry of the other kind named like the source, directory holding an identical earlier copy, directory "
+            "holding an out-of-date earlier copy} x {same basename, renamed} x "
             "{writable, read-only}; plus a location of another deployment wrapping R1a through a mount point (L->W, R1a->W, R2a->W, "
             "W->L, W->W) and one call with two destination locations (L|R1a|R2a -> {R1a,R1b}); ~10% roots with shell-special characters. Non-trivial = a directory with >=2 entries, a "
             "hostile name, a link or a non-empty file. Distinct = distinct canonical JSON.")
@@ -217,7 +227,8 @@ class C22(Prop):
     ASSUMPTIONS = ("source trees: unique names per directory, relative symlinks that stay inside the tree and point to regular files "
                    "or link-free directories (no dangling links, no cycles), no special files",
                    "file contents are compared through tokens (hex up to 24 bytes, else length + SHA-256 prefix)",
-                   "umask 022, one destination location per transfer, destination directory does not already contain the source's basename")
+                   "umask 022; theorem domain: destination absent or a directory not containing the source's basename (other destination "
+                   "states are exercised and judged, not proved)")
 
     # ------------------------------------------------------------------------------------------ generation
     def _name(self, rng, used):
